@@ -8,6 +8,7 @@ extern int gh_created;               /* number of elf_symbol::create calls */
 extern unsigned long gh_c_index, gh_c_size;
 extern int gh_c_type, gh_c_binding, gh_c_defined, gh_c_common, gh_c_visibility;
 extern int gh_ksym_inserted, gh_ksym_key_id, gh_crc_inserted;
+extern int gh_key_is_new;   /* input: the name inserted into the exported-names set / crc map was not there yet */
 extern unsigned long gh_substr_pos;
 #ifdef __cplusplus
 }
